@@ -443,17 +443,18 @@ def teardownFixture (P : Proj) (k : InstKey) (name : String) : M (Option ExcKind
     if !(← get).insts.has k name then do modelErr s!"AssertionError: fixture {name} not executed"; return none
     else
       let r ← (if f.perThread then do
-          -- `teardown_factory`: every created object, oldest first; an exception stops the loop
+          -- `teardown_factory`: every created object, oldest first; a failing teardown does not stop the loop,
+          -- the first exception is re-raised once all objects have been torn down
           let objs := (← get).insts.ptObjects.filter (fun x => x.1 == k && x.2.1 == name)
-          let rec go : List (InstKey × String × Nat) → M (Option ExcKind)
-            | [] => return none
+          let rec go (first : Option ExcKind) : List (InstKey × String × Nat) → M (Option ExcKind)
+            | [] => return first
             | _ :: rest => do
               if f.gen then
                 match ← runUnit (.fx f.func true) f.teardown with
-                | some e => return some e
-                | none => go rest
-              else go rest
-          go objs
+                | some e => go (if first.isSome then first else some e) rest
+                | none => go first rest
+              else go first rest
+          go none objs
         else if f.gen then runUnit (.fx f.func true) f.teardown
         else pure none)
       if r.isNone then modify fun ts => { ts with insts := ts.insts.del k name }
